@@ -513,11 +513,13 @@ func (k *KVStore) scanCommon(cursor uint64, expr string, count int, f func(e sto
 	if tableCursor == 0 {
 		_, ok := k.tablesByCoefficient[cf+1]
 		if !ok {
-			cf, err = k.findCoefficient(cf)
+			// There is a hole in the coefficients, continue with the next existing table.
+			next, err := k.findCoefficient(cf)
 			if err != nil {
-				// Invalid cursor
+				// End of the scan
 				return 0, nil
 			}
+			return k.tableSize * next, nil
 		}
 		// The next table
 		return k.tableSize * (cf + 1), nil
